@@ -291,7 +291,7 @@ func ruleC17(prog *Program, rep *Report) {
 	// tokenizer events
 	rep.Rules = append(rep.Rules, "A-events: the events oj.Tokenizer emits agree with the reference at every byte in single- and multi-document mode (see C03)")
 	results := exploreFrontEnds(prog, []feSpec{jsonFrontEnds[2]}, []bool{false, true}, false)
-	applyParseResults(rep, results, kindsEvents, "A-events", 18)
+	applyParseResults(rep, results, union(kindsEvents, map[string]bool{"stale-scratch": true}), "A-events", 18) // a key with a stale prefix is not matched
 }
 
 // ruleScopedFlag: in jp.PathMatch style code (a switch over fragment kinds
